@@ -33,6 +33,9 @@ var (
 
 // TODO: 要リファクタ
 func (p *Parser) Parse(row string) (*Markdown, error) {
+	p.mu.Lock()
+	defer p.mu.Unlock()
+
 	// 空行か否か
 	if p.isBlank(row) {
 		return nil, ErrBlankLine
@@ -56,9 +59,6 @@ func (p *Parser) Parse(row string) (*Markdown, error) {
 			text:      text,
 		}, nil
 	}
-
-	p.mu.Lock()
-	defer p.mu.Unlock()
 
 	spaceCount, afterText, err := p.separateRow(row)
 	if err != nil {
